@@ -19,12 +19,13 @@ pkg=$(grep -m1 -o 'place in: *[a-z/]*' $DST/demo_test.go 2>/dev/null | sed 's/pl
 [ -z "$pkg" ] && pkg=$(grep -m1 '^+++ b/' $DST/patch.diff | sed 's#+++ b/##; s#/[^/]*$##')
 (cd $S/mut && go build ./... && go test -vet=off -count=1 ./... > $S/suite.log 2>&1); suite=$?
 cp $DST/demo_test.go $S/clean/$pkg/zz_demo_test.go; cp $DST/demo_test.go $S/mut/$pkg/zz_demo_test.go
-(cd $S/clean && timeout 600 go test -vet=off -count=1 ./$pkg/ > $S/demo_clean.log 2>&1); dclean=$?
-(cd $S/mut && timeout 600 go test -vet=off -count=1 ./$pkg/ > $S/demo_mut.log 2>&1); dmut=$?
+RACEFLAG=""; if [ "${RACE:-0}" = 1 ] || grep -q '^//go:build race' $DST/demo_test.go; then RACEFLAG="-race"; fi
+(cd $S/clean && timeout 900 go test $RACEFLAG -vet=off -count=1 ./$pkg/ > $S/demo_clean.log 2>&1); dclean=$?
+(cd $S/mut && timeout 900 go test $RACEFLAG -vet=off -count=1 ./$pkg/ > $S/demo_mut.log 2>&1); dmut=$?
 out=$(/verif/mutant.sh $DST/patch.diff $ID $TIER 2>&1); code=$?
 viol=$(echo "$out" | grep -m1 '^  violation' | cut -c1-400)
 echo "$out" | tail -40 > $DST/check_output.txt
-python3 - "$ID" "$NAME" "$suite" "$dclean" "$dmut" "$code" "$viol" "$pkg" "$TIER" <<'PY'
+RACEFLAG_USED=$RACEFLAG python3 - "$ID" "$NAME" "$suite" "$dclean" "$dmut" "$code" "$viol" "$pkg" "$TIER" <<'PY'
 import json,sys,os
 ID,NAME,suite,dclean,dmut,code,viol,pkg,tier=sys.argv[1:10]
 dst=f"/verif/seeded/{ID}-{NAME}"
@@ -33,8 +34,8 @@ meta={"property":ID,"name":NAME,"package":pkg,
  "needs_to_manifest": "see notes.md",
  "confirmed":{"golib_suite_passes_with_patch": suite=="0","demo_passes_without_patch": dclean=="0","demo_fails_with_patch": dmut!="0"},
  "ran":[f"go build ./... && go test -vet=off -count=1 ./...  (patched scratch copy) -> exit {suite}",
-        f"go test ./{pkg}/ with demo_test.go on the clean copy -> exit {dclean}",
-        f"go test ./{pkg}/ with demo_test.go on the patched copy -> exit {dmut}",
+        f"go test {os.environ.get('RACEFLAG_USED','')} ./{pkg}/ with demo_test.go on the clean copy -> exit {dclean}",
+        f"go test {os.environ.get('RACEFLAG_USED','')} ./{pkg}/ with demo_test.go on the patched copy -> exit {dmut}",
         f"/verif/mutant.sh patch.diff {ID} {tier} -> exit {code}"],
  "check_exit":int(code),"first_violation":viol,
  "caught_by":[ID] if code=="1" and viol else []}
